@@ -383,10 +383,11 @@ def gen_open_net(rng, order=None):
         if gi in seen:
             rep = True
         seen.add(gi)
-    p = 1
+    o = b = 1
     for g in groups:
-        p *= g[1] ** max(1, g[3])
-    if p > 20000:
+        o *= g[1] ** g[3]          # entries of the dense result
+        b *= g[1]                  # terms of the defining sum per entry
+    if o * b > 2500:
         return gen_open_net(rng, order)
     return {"tensors": tl, "bonds": None, "data": data}, feats
 
